@@ -573,6 +573,16 @@ func (p *provRunner) genChan(r *Rng, prof provProfile) string {
 		if r.chance(5) {
 			ch = "channel-999"
 		}
+		// directed: right after a (possibly repeated) stop, the owner of ANOTHER launched consumer stops
+		// it in the same block, so that both removals fall due together, the re-stopped one first
+		if r.chance(50) {
+			for _, id := range p.consumerIds() {
+				if p.prev[id]["phase"] == "3" && p.prev[id]["channel"] != ch {
+					p.script = append(p.script, fmt.Sprintf("remove s=%s c=%s", p.ownerOf(id), id))
+					break
+				}
+			}
+		}
 		return fmt.Sprintf("%s ch=%s seq=%d", []string{"timeout", "timeout", "ackerr", "ackok"}[r.intn(4)], ch, p.chanSeq)
 	}
 	// pending TRYOPEN channels get confirmed
